@@ -532,16 +532,16 @@ Proof.
 Qed.
 
 (* ------------------------------------------------------------------ ArenaTree::insert as a whole *)
-Theorem tree_insert_refines t T b :
+Theorem tree_insert_refines_f fuel t T b :
   rep (heap t) (root t) T -> NoDup (bids T) -> (forall i, In i (bids T) -> 1 < i /\ i <> node) -> 1 < node ->
-  bbh T = Some b -> bred T = false -> (2 * bheight T + 1 < 200)%nat ->
-  let t' := tree_insert t node kn in
+  bbh T = Some b -> bred T = false -> (2 * bheight T + 1 < fuel)%nat ->
+  let t' := tree_insert_f fuel t node kn in
   exists R, rep (heap t') (root t') R /\ bred R = false /\ (bbh R = Some b \/ bbh R = Some (b + 1)) /\
     (sortedb (bkeys T) = true -> ~ In kn (bkeys T) ->
        sortedb (bkeys R) = true /\ exists L Rr, bkeys T = L ++ Rr /\ bkeys R = L ++ kn :: Rr) /\
     (exists L Rr, bids T = L ++ Rr /\ bids R = L ++ node :: Rr).
 Proof.
-  intros Hr Hnd Hids Hn Hb Hred Hh. cbn zeta. unfold tree_insert.
+  intros Hr Hnd Hids Hn Hb Hred Hh. cbn zeta. unfold tree_insert_f.
   set (h0 := hset (heap t) node (mktn 0 0 false kn)).
   destruct (Z.eqb_spec (root t) 0) as [E0|E0].
   - (* empty tree *)
@@ -571,10 +571,10 @@ Proof.
     pose proof (AInv_init node kn T b Hb Hred) as A.
     assert (V : vars_ok NoRot2 [] 0 0 HEAD false false) by (split; [reflexivity|left; repeat split]).
     pose proof (pot_init node kn T HT) as Hp.
-    destruct (insert_loop_sim 200 NoRot2 [] T h2 0 0 HEAD (root t) false false A Hz Hr2 Hy Hn Hnode V (fun _ => HT) ltac:(lia)) as (R0 & HR0 & Hrep).
-    destruct (zinsert_correct node kn 200 T b Hb Hred HT Hh) as (R & HR & Hbr & Hbb & Hk & Hi).
+    destruct (insert_loop_sim fuel NoRot2 [] T h2 0 0 HEAD (root t) false false A Hz Hr2 Hy Hn Hnode V (fun _ => HT) ltac:(lia)) as (R0 & HR0 & Hrep).
+    destruct (zinsert_correct node kn fuel T b Hb Hred HT Hh) as (R & HR & Hbr & Hbb & Hk & Hi).
     unfold zinsert in HR. rewrite HR0 in HR. inversion HR; subst R. clear HR.
-    set (h3 := insert_loop 200 h2 node 0 0 HEAD (root t) false false) in *.
+    set (h3 := insert_loop fuel h2 node 0 0 HEAD (root t) false false) in *.
     set (r := child h3 HEAD true) in *. cbn [heap root].
     exists (blacken R0). split; [|split; [exact Hbr|split; [exact Hbb|split; [exact Hk|exact Hi]]]].
     destruct Hi as (L & Rr & E1 & E2). destruct (blacken_keys R0) as [_ Eb]. rewrite Eb in E2.
@@ -591,6 +591,17 @@ Proof.
     cbn [bids] in NR. destruct (nodup_app_parts _ _ NR) as (_ & N2 & D). apply NoDup_cons_iff in N2. destruct N2 as [N2 _].
     rewrite recolor_root in Hfin; [exact Hfin| |exact N2]. intros Hc. apply (D _ Hc). left. reflexivity.
 Qed.
+
+Theorem tree_insert_refines t T b :
+  rep (heap t) (root t) T -> NoDup (bids T) -> (forall i, In i (bids T) -> 1 < i /\ i <> node) -> 1 < node ->
+  bbh T = Some b -> bred T = false -> (2 * bheight T + 1 < 200)%nat ->
+  let t' := tree_insert t node kn in
+  exists R, rep (heap t') (root t') R /\ bred R = false /\ (bbh R = Some b \/ bbh R = Some (b + 1)) /\
+    (sortedb (bkeys T) = true -> ~ In kn (bkeys T) ->
+       sortedb (bkeys R) = true /\ exists L Rr, bkeys T = L ++ Rr /\ bkeys R = L ++ kn :: Rr) /\
+    (exists L Rr, bids T = L ++ Rr /\ bids R = L ++ node :: Rr).
+Proof. exact (tree_insert_refines_f 200 t T b). Qed.
+
 
 (* ------------------------------------------------------------------ the same in terms of the reading functions of the model *)
 Lemma bbh_le_height t : forall b, bbh t = Some b -> b <= Z.of_nat (bheight t) + 1.
@@ -644,6 +655,37 @@ Proof.
   split; [rewrite EkR; exact HsR|]. split; [exists L, Rr; rewrite EkT, EkR; split; assumption|].
   split.
   { intros k. rewrite Hget, EkT, (lookup_member R k HsR Hnz), E1, E2, !in_app_iff. cbn [In]. intuition. }
+  split; [rewrite I2; apply nodup_insert_mid; [rewrite <- I1; exact Hnd|]; rewrite <- I1; intros Hc; destruct (Hids _ Hc) as [_ Hc']; apply Hc'; reflexivity|exact Hin].
+Qed.
+
+(* no bound on the height: for every tree there is a fuel, and every larger fuel gives the same statement (the C++ loops have
+   no fuel); the reading loops likewise *)
+Theorem tree_insert_any_height fuel t T b :
+  rep (heap t) (root t) T -> NoDup (bids T) -> (forall i, In i (bids T) -> 1 < i /\ i <> node) -> 1 < node ->
+  bbh T = Some b -> bred T = false -> sortedb (bkeys T) = true -> ~ In kn (bkeys T) -> (2 * bheight T + 1 < fuel)%nat ->
+  let t' := tree_insert_f fuel t node kn in
+  exists R b', rep (heap t') (root t') R /\
+    bred R = false /\ bbh R = Some b' /\ Z.of_nat (bheight R) <= 2 * (b' - 1) /\
+    sortedb (bkeys R) = true /\ (exists L Rr, bkeys T = L ++ Rr /\ bkeys R = L ++ kn :: Rr) /\
+    (forall k, lookup R k <> 0 <-> k = kn \/ In k (bkeys T)) /\
+    (forall f', (bheight R < f')%nat ->
+       (forall k, get_loop f' (heap t') (root t') k = lookup R k) /\ inorder f' (heap t') (root t') = bflat R) /\
+    NoDup (bids R) /\ (forall i, In i (bids R) <-> i = node \/ In i (bids T)).
+Proof.
+  intros Hr Hnd Hids Hn Hb Hred Hs Hnin Hh. cbn zeta.
+  destruct (tree_insert_refines_f fuel t T b Hr Hnd Hids Hn Hb Hred Hh) as (R & HR & Hbr & Hbb & Hk & Hi). cbn zeta in HR.
+  destruct (Hk Hs Hnin) as (HsR & L & Rr & E1 & E2). destruct Hi as (L' & Rr' & I1 & I2).
+  assert (Hb' : exists b', bbh R = Some b') by (destruct Hbb as [H|H]; eauto). destruct Hb' as (b' & Hb').
+  destruct (bbh_height R b' Hb') as [_ HhR]. rewrite Hbr in HhR.
+  assert (Hin : forall i, In i (bids R) <-> i = node \/ In i (bids T)).
+  { intros i. rewrite I1, I2, !in_app_iff. cbn [In]. intuition. }
+  assert (Hnz : ids_nonzero R = true).
+  { apply ids_nonzero_of. intros i Hi. apply Hin in Hi. destruct Hi as [->|Hi]; [lia|]. destruct (Hids i Hi). lia. }
+  exists R, b'. split; [exact HR|]. split; [exact Hbr|]. split; [exact Hb'|]. split; [lia|]. split; [exact HsR|].
+  split; [exists L, Rr; split; assumption|]. split.
+  { intros k. rewrite (lookup_member R k HsR Hnz), E1, E2, !in_app_iff. cbn [In]. intuition. }
+  split.
+  { intros f' Hf'. split; [intros k; apply get_loop_rep; assumption|apply inorder_rep; assumption]. }
   split; [rewrite I2; apply nodup_insert_mid; [rewrite <- I1; exact Hnd|]; rewrite <- I1; intros Hc; destruct (Hids _ Hc) as [_ Hc']; apply Hc'; reflexivity|exact Hin].
 Qed.
 End Refine.
